@@ -199,17 +199,18 @@ def draw_faults(r, kind, data, readmap):
 _PRISTINE = {}
 
 
-def pristine(kind, name, data):
+def pristine(kind, name, data, allow_rejected=False):
     key = (kind, name)
     if key in _PRISTINE:
         return _PRISTINE[key]
-    res = iosim.parse(kind, data, keep_log=True)
-    if res["outcome"] != "ok":
+    res = iosim.parse(kind, data, keep_log=True, real_timeout=iosim.REAL_TIME_LIMIT_S)
+    if res["outcome"] != "ok" and not allow_rejected:
         _PRISTINE[key] = None
         return None
     readmap = sorted({(pos, got) for sid, pos, asked, got in res["log"] if sid == 1 and 0 < got <= 8})
     consumed = res["maps"][0] if res["maps"] else bytearray(len(data))
-    _PRISTINE[key] = {"readmap": readmap, "steps": res["steps"], "consumed": bytes(consumed)}
+    _PRISTINE[key] = {"readmap": readmap, "steps": res["steps"], "consumed": bytes(consumed), "outcome": res["outcome"],
+                      "where": res["where"], "owner": res["owner"], "budget": res["budget"]}
     return _PRISTINE[key]
 
 
@@ -282,6 +283,9 @@ def store_for(src, data, faults):
 
 
 def _source_bytes(src):
+    if src["kind"] == "gen-axml":
+        from gen import axmlasm
+        return axmlasm.assemble(src["doc"])
     if src["kind"] == "apk-entry":
         return _archive(src["name"]).get(src["entry"])
     if src["kind"] == "corpus":
@@ -306,12 +310,19 @@ def _worker_inproc(seed):
         pass
     r = core.rng(seed, "workload")
     files = corpus_files()
-    if r.random() < 0.25:
+    pick = r.random()
+    if pick < 0.2:
         from gen import dexasm, models
         model = r.choice([models.xref_model, models.share_model, models.structured_model])(r)
         raw, _ = dexasm.assemble(model)
         kind, name, data = "dex", "generated", raw
         src = {"kind": "gen", "parser": "dex", "name": "generated", "model": model}
+    elif pick < 0.35:
+        # crafted binary-XML documents: adversarial element / attribute / prefix names (gen/axmlasm.py)
+        from gen import axmlasm
+        doc = axmlasm.random_doc(r)
+        kind, name, data = "axml", "generated", axmlasm.assemble(doc)
+        src = {"kind": "gen-axml", "parser": "axml", "name": "generated", "doc": doc}
     else:
         kind, name, data = r.choice(files)
         src = {"kind": "corpus", "parser": kind, "name": name}
@@ -332,7 +343,7 @@ def _worker_inproc(seed):
         p = pristine(inner[0], inner[1], inner[2])
         data = inner[2]
     else:
-        p = pristine(kind, name + (":%x" % seed if name == "generated" else ""), data)
+        p = pristine(kind, name + (":%x" % seed if name == "generated" else ""), data, allow_rejected=(src["kind"] == "gen-axml"))
     skipped = {}
     if p is None:
         return {"problems": [], "digest": core.digest_of([name, "pristine-not-ok"]), "probes": {}, "faults": {}, "units": 0,
@@ -343,6 +354,13 @@ def _worker_inproc(seed):
     probes = {}
     fired = {}
     units = 0
+    if src["kind"] == "gen-axml":
+        # the crafted document itself is a case (no storage fault on top)
+        fired["crafted-document"] = 1
+        if p["outcome"] in ("loop", "native-stall"):
+            sig = f"C35:{kind}:native-stall" if p["outcome"] == "native-stall" else f"C35:{kind}:{p['owner']}"
+            problems[sig] = {"msg": f"{kind} parser did not terminate on a crafted document (no fault on top): {p['outcome']} in {p['where']}",
+                             "faults": []}
     case_digests, nontrivial = [], []
     outcomes = {}
     sample = None
